@@ -795,7 +795,19 @@ fn supervisor() {
     let lines: Vec<String> = stdin.lock().lines().map(|l| l.unwrap()).collect();
     let mut results: Vec<Option<String>> = vec![None; lines.len()];
     let mut from = 0;
+    // after this many time-outs the remaining lines are not run (status `skipped`): a decoder that hangs on a whole
+    // class of inputs must not make the check itself take hours; the time-outs already seen are the verdict
+    let max_timeouts: usize = std::env::var("C04_MAX_TIMEOUTS").ok().and_then(|s| s.parse().ok()).unwrap_or(4);
     while from < lines.len() {
+        let timeouts = results.iter().filter(|r| matches!(r, Some(s) if s.starts_with("timeout"))).count();
+        if timeouts >= max_timeouts {
+            for r in results.iter_mut().skip(from) {
+                if r.is_none() {
+                    *r = Some("skipped reason=too_many_timeouts".to_string());
+                }
+            }
+            break;
+        }
         let died = run_worker(&lines, from, lines.len(), &mut results);
         // first line without a verdict
         let k = (from..lines.len()).find(|i| results[*i].is_none());
